@@ -96,12 +96,13 @@ func StartCluster(n int, noJoin bool, mod func(i int, c *config.Config)) (*TClus
 	var err error
 	// the gossip UDP socket is bound to the port number the TCP listener got,
 	// which another process may hold: retry
-	for attempt := 0; attempt < 8; attempt++ {
+	for attempt := 0; attempt < 24; attempt++ {
 		cl, err = startCluster(n, noJoin, mod)
 		if err == nil || !strings.Contains(err.Error(), "address already in use") {
 			return cl, err
 		}
-		time.Sleep(20 * time.Millisecond)
+		// a port clash, or the ephemeral port range is exhausted for a moment
+		time.Sleep(time.Duration(20*(attempt+1)) * time.Millisecond)
 	}
 	return cl, err
 }
@@ -418,10 +419,23 @@ var httpClient = &http.Client{
 	},
 }
 
+// KeepAliveClient reuses connections: for checks that issue many small requests
+// to one port (the ephemeral port range is finite).
+var KeepAliveClient = &http.Client{
+	Transport: &http.Transport{DisableCompression: true, MaxIdleConnsPerHost: 4, IdleConnTimeout: 5 * time.Second},
+	Timeout:   30 * time.Second,
+	CheckRedirect: func(*http.Request, []*http.Request) error {
+		return http.ErrUseLastResponse
+	},
+}
+
 // Do sends req (already addressed to a node's proxy port) and reads the response.
-func Do(req *http.Request) *HTTPResult {
+func Do(req *http.Request) *HTTPResult { return DoWith(httpClient, req) }
+
+// DoWith is Do with a given client.
+func DoWith(client *http.Client, req *http.Request) *HTTPResult {
 	res := &HTTPResult{Start: time.Now()}
-	resp, err := httpClient.Do(req)
+	resp, err := client.Do(req)
 	if err != nil {
 		res.Err, res.End = err, time.Now()
 		return res
